@@ -2,6 +2,7 @@ package rules
 
 import (
 	"fmt"
+	"go/constant"
 	"go/token"
 	"go/types"
 	"sort"
@@ -187,7 +188,12 @@ func c16ShapeName(fields []string, mask int) string {
 
 // c16Run interprets fn with the optional members pinned to the shape.
 func c16Run(c *eng.Ctx, fn *ssa.Function, fields []string, mask int, depth int) ([]eng.PathResult, error) {
-	in := &eng.Interp{W: c.W, Depth: depth, MaxPaths: 1 << 15}
+	return c16RunFollowing(c, fn, fields, mask, depth, nil)
+}
+
+// c16RunFollowing is c16Run with a restriction on the callees that are interpreted.
+func c16RunFollowing(c *eng.Ctx, fn *ssa.Function, fields []string, mask int, depth int, follow func(*ssa.Function) bool) ([]eng.PathResult, error) {
+	in := &eng.Interp{W: c.W, Depth: depth, MaxPaths: 1 << 15, FollowCall: follow}
 	in.PinLoad = func(ld *ssa.UnOp, _ string) (eng.AV, bool) {
 		name, ok := c16Target(ld, fields)
 		if !ok {
@@ -222,7 +228,7 @@ func c16(c *eng.Ctx) {
 	// ---- R1: totality on shapes; accepted shapes
 	var accepted []int
 	for mask := 0; mask < 1<<len(fields); mask++ {
-		paths, err := c16Run(c, vf, fields, mask, 2)
+		paths, err := c16Run(c, vf, fields, mask, eng.LiftDepth)
 		ok := err == nil && len(paths) > 0
 		detail := ""
 		acc := false
@@ -291,29 +297,113 @@ func c16(c *eng.Ctx) {
 		{pkgRLStoreFC, "", "NewGlobalFlowControl"}, {pkgRLStoreFC, "", "ResizeGlobalFlowControl"}, {pkgRLStoreLoc, "upstreamCondition", "syncLocalFlowControls"},
 		{pkgFCRoot, "upstreamLimiter", "syncLocalFlowControls"},
 	}
+	// The consumers are anchored by name (stable keys) but found by ROLE: every function of the
+	// data plane that reads an optional member of the schema must be analysed — as part of a
+	// named consumer (its Region: the helpers it is split into) or, when a consumer was renamed,
+	// merged or newly added, under the function its calling contexts end in. A missing name is
+	// not a failure as long as the role is covered.
+	var consumerFns []*ssa.Function
+	covered := map[*ssa.Function]bool{}
+	byRole := map[*ssa.Function]bool{}
+	addConsumer := func(fn *ssa.Function) {
+		for _, x := range consumerFns {
+			if x == fn {
+				return
+			}
+		}
+		consumerFns = append(consumerFns, fn)
+		for _, r := range c.W.Region(fn) {
+			covered[r] = true
+		}
+	}
 	for _, cs := range consumers {
 		var fn *ssa.Function
 		if cs.typ != "" {
-			fn = c.MustMethod(cs.pkg, cs.typ, cs.name)
+			fn = c.W.Method(cs.pkg, cs.typ, cs.name)
 		} else {
-			fn = c.MustFunc(cs.pkg, cs.name)
+			fn = c.W.Func(cs.pkg, cs.name)
 		}
-		if fn == nil {
+		if fn != nil && fn.Blocks != nil {
+			addConsumer(fn)
+		}
+	}
+	for _, fn := range c.W.AllRepoFuncs() {
+		if fn.Pkg == nil || covered[fn] {
 			continue
 		}
-		for _, m := range accepted {
-			paths, err := c16Run(c, fn, fields, m, 4)
-			ok := err == nil && len(paths) > 0
-			detail := ""
-			for _, p := range paths {
-				if len(p.NilDerefs) > 0 {
-					ok = false
-					f, l := c.W.Pos(p.NilDerefs[0].Pos())
-					detail = fmt.Sprintf("the data plane dereferences a nil member at %s:%d (%s) for an object validation accepts", f, l, eng.PathString(derefBase(p.NilDerefs[0])))
+		pp := fn.Pkg.Pkg.Path()
+		if strings.HasPrefix(pp, pkgV1alpha1) || pp == pkgAdmission || strings.Contains(pp, "/pkg/client/") || strings.HasSuffix(pp, "_test") {
+			continue // the API package (generated code), validation and admission are not consumers
+		}
+		reads := false
+		eng.Instrs(fn, func(ins ssa.Instruction) {
+			if ld, ok := ins.(*ssa.UnOp); ok && ld.Op == token.MUL {
+				if _, ok := c16Target(ld, fields); ok {
+					reads = true
 				}
 			}
-			if err != nil {
-				detail = err.Error()
+		})
+		if reads {
+			byRole[fn] = true
+			addConsumer(fn)
+		}
+	}
+	if len(consumerFns) == 0 {
+		c.Fail("R2", nil, "consumers of the flow-control schema", 0, "no function of the data plane reads a member of FlowControlSchemaConfiguration")
+	}
+	// safeOn interprets fn on one accepted shape: no path dereferences a nil member
+	safeOn := func(fn *ssa.Function, m int, follow func(*ssa.Function) bool) (bool, string) {
+		paths, err := c16RunFollowing(c, fn, fields, m, 4, follow)
+		if err != nil {
+			return false, err.Error()
+		}
+		if len(paths) == 0 {
+			return false, "no path enumerated"
+		}
+		for _, p := range paths {
+			if len(p.NilDerefs) > 0 {
+				f, l := c.W.Pos(p.NilDerefs[0].Pos())
+				return false, fmt.Sprintf("the data plane dereferences a nil member at %s:%d (%s) for an object validation accepts", f, l, eng.PathString(derefBase(p.NilDerefs[0])))
+			}
+		}
+		return true, ""
+	}
+	for _, fn := range consumerFns {
+		for _, m := range accepted {
+			ok, detail := safeOn(fn, m, nil)
+			if !ok && byRole[fn] {
+				// a reader found by its role may be a helper that relies on a test made by its
+				// caller: it is safe when it is safe as a part of every function its calling
+				// contexts end in (only the helpers on the way down to it are interpreted there,
+				// the rest of a large caller is irrelevant and would only multiply the paths)
+				if roots := c04Roots(c, fn); len(roots) > 0 && !(len(roots) == 1 && roots[0] == fn) {
+					onWay := map[*ssa.Function]bool{fn: true}
+					for changed := true; changed; {
+						changed = false
+						for _, r := range roots {
+							for _, g := range c.W.Region(r) {
+								if onWay[g] {
+									continue
+								}
+								for _, ci := range eng.Calls(g) {
+									if cf := eng.CalleeFn(ci); cf != nil && onWay[cf] {
+										onWay[g] = true
+										changed = true
+										break
+									}
+								}
+							}
+						}
+					}
+					all := true
+					for _, r := range roots {
+						o, _ := safeOn(r, m, func(callee *ssa.Function) bool { return onWay[callee] })
+						all = all && o
+					}
+					if all {
+						ok, detail = true, ""
+					}
+				}
 			}
 			c.Check("R2", fn, "consumer safe on shape "+c16ShapeName(fields, m), fn.Pos(), ok, detail)
 		}
@@ -431,21 +521,35 @@ func c16Parsers(c *eng.Ctx) {
 		vc, ok := vu[k]
 		detail := fmt.Sprintf("the data plane applies %s to field %s; validation must apply the same parser to the same field and reject on error (e.g. endpoint \"https://%%zz\" passes a prefix check but url.Parse fails when the cluster is synced)", shortName(k.parser), k.field)
 		if ok {
-			// the parser's error gates a reject
+			// the parser's error gates a reject: the error of the validator's parser call is forced
+			// to non-nil and every path of the validator it belongs to (the root of the calling
+			// contexts of the function holding the call, helpers interpreted) that makes the call
+			// must reach a reject block afterwards — in the same function, in its caller after the
+			// helper reported the problem by a result, wherever.
 			call, isCall := vc.(*ssa.Call)
 			gated := false
 			if isCall {
-				for _, fn := range validatorFuncs {
-					for _, rc := range eng.Calls(fn) {
-						if !c16IsReject(rc) || rc.Parent() != vc.Parent() {
-							continue
-						}
-						if eng.GuardedByNil(rc, func(v ssa.Value) bool {
-							cc, _ := eng.CallResultOf(v)
-							return cc == call
-						}, false) {
-							gated = true
-						}
+				errIdx := -1
+				if res := call.Call.Signature().Results(); res.Len() > 0 && res.At(res.Len()-1).Type().String() == "error" {
+					errIdx = res.Len() - 1
+					if res.Len() == 1 {
+						errIdx = -1
+					}
+					gated = true
+					for _, root := range c04Roots(c, vc.Parent()) {
+						gated = gated && c16ForcedReject(c, root,
+							func(cc *ssa.Call, idx int, _ *eng.TraceFrame) (eng.AV, bool) {
+								if cc != call {
+									return eng.AV{}, false
+								}
+								if idx == errIdx {
+									return eng.AV{K: eng.NonNilV}, true
+								}
+								if idx == -1 && errIdx != -1 {
+									return eng.AV{}, true // executed: results come from the Extract pins
+								}
+								return eng.AV{}, false
+							}, nil, c16PinnedCall(call))
 					}
 				}
 			}
@@ -479,10 +583,20 @@ func c16Parsers(c *eng.Ctx) {
 					l, isL := v.(*ssa.Lookup)
 					return isL && c09LeafFieldOfLookup(l) == "Annotations"
 				})
-				for _, rc := range eng.Calls(fn) {
-					if c16IsReject(rc) && eng.GuardedByNil(rc, func(v ssa.Value) bool { return v == ssa.Value(call) }, false) && fromAnn {
-						ok = true
+				// the error of Set is forced to non-nil: every path of the admission function the
+				// call belongs to that makes it reaches a reject block afterwards
+				if fromAnn {
+					gated := true
+					for _, root := range c04Roots(c, fn) {
+						gated = gated && c16ForcedReject(c, root,
+							func(cc *ssa.Call, idx int, _ *eng.TraceFrame) (eng.AV, bool) {
+								if cc == call && idx == -1 {
+									return eng.AV{K: eng.NonNilV}, true
+								}
+								return eng.AV{}, false
+							}, nil, c16PinnedCall(call))
 					}
+					ok = ok || gated
 				}
 			}
 		}
@@ -750,244 +864,425 @@ func errPathKeepsNil(call *ssa.Call, ev ssa.Value, tc *ssa.Alloc) bool {
 
 // ---- R5 -------------------------------------------------------------------------------
 
-// c16Ranges derives lower bounds of the numeric limits from the validator's reject guards.
+// c16Ranges decides the lower bounds of the numeric limits by FORCING: for every bound the
+// optional members are pinned to a consistent shape in which the fields exist, every numeric
+// field is pinned to a value that satisfies all the other bounds, the field(s) of the bound at
+// hand to values that violate it — the nearest violating value and a far one (a test for one
+// particular value, `== 0`, lets the far one through) — and every path of the validator (the
+// helpers it is split into are interpreted, whatever their names) must reach a reject block.
+// The same run with the unviolated values must have an accepting path, so that "every path
+// rejects" is never vacuous. How the validator spells the test (if / switch / early return,
+// in a per-member helper, on a named local) does not matter.
 func c16Ranges(c *eng.Ctx) {
-	funcs := []*ssa.Function{c.W.Func(pkgValidation, "ValidateFlowControlConfiguration"), c.W.Func(pkgValidation, "validateTokenBucketFlowControlSchema")}
-	// field identification: "Parent.Field" from the access path, e.g. "GlobalTokenBucket.QPS"; inside the
-	// token-bucket helper the parameter is the local tokenBucket member.
-	name := func(v ssa.Value, fn *ssa.Function) string {
-		v = convOf(v)
-		root, p := eng.AccessPath(v)
-		var q []string
-		for _, x := range p {
-			if x != "[]" && x != "FlowControlSchemaConfiguration" {
-				q = append(q, x)
+	vf := c.W.Func(pkgValidation, "ValidateFlowControlConfiguration")
+	if vf == nil || vf.Blocks == nil {
+		return // reported as an unresolved anchor by the caller
+	}
+	fields := c16Optional(c)
+	if fields == nil {
+		return
+	}
+	type nums map[string]int64 // "Member.Field" → value
+	valid := nums{
+		"MaxRequestsInflight.Max": 5, "GlobalMaxRequestsInflight.Max": 10,
+		"TokenBucket.QPS": 5, "TokenBucket.Burst": 10, "GlobalTokenBucket.QPS": 10, "GlobalTokenBucket.Burst": 20,
+	}
+	// run interprets the validator on one shape with the numbers pinned; it reports whether
+	// some path accepts (reaches the exit without passing a reject block).
+	run := func(members []string, vals nums) (accepts bool, undecided string) {
+		mask := 0
+		for i, f := range fields {
+			for _, m := range members {
+				if f == m {
+					mask |= 1 << i
+				}
 			}
 		}
-		if len(q) == 1 && fn.Name() == "validateTokenBucketFlowControlSchema" {
-			if _, ok := root.(*ssa.Parameter); ok {
-				return "TokenBucket." + q[0]
+		in := &eng.Interp{W: c.W, Depth: 4, MaxPaths: 1 << 15}
+		in.PinLoad = func(ld *ssa.UnOp, _ string) (eng.AV, bool) {
+			name, ok := c16Target(ld, fields)
+			if !ok {
+				return eng.AV{}, false
+			}
+			for i, f := range fields {
+				if f == name {
+					if mask&(1<<i) != 0 {
+						return eng.AV{K: eng.NonNilV}, true
+					}
+					return eng.AV{K: eng.NilV}, true
+				}
+			}
+			return eng.AV{}, false
+		}
+		in.PinPath = func(path string) (eng.AV, bool) {
+			parts := strings.Split(path, ".")
+			if len(parts) < 3 {
+				return eng.AV{}, false
+			}
+			if v, ok := vals[parts[len(parts)-2]+"."+parts[len(parts)-1]]; ok {
+				return eng.AVInt(v), true
+			}
+			return eng.AV{}, false
+		}
+		paths, err := in.Run(vf, nil)
+		if err != nil {
+			return false, err.Error()
+		}
+		if len(paths) == 0 {
+			return false, "no path enumerated"
+		}
+		for _, p := range paths {
+			if p.Panicked || len(p.NilDerefs) > 0 {
+				continue // decided by R1
+			}
+			if p.LoopCut {
+				return false, "a loop did not fold"
+			}
+			rej := false
+			for _, ci := range p.Calls {
+				rej = rej || c16IsReject(ci)
+			}
+			if !rej {
+				accepts = true
 			}
 		}
-		if len(q) == 2 {
-			return q[0] + "." + q[1]
+		return accepts, ""
+	}
+	with := func(base nums, over nums) nums {
+		out := nums{}
+		for k, v := range base {
+			out[k] = v
 		}
-		return ""
+		for k, v := range over {
+			out[k] = v
+		}
+		return out
 	}
-	type edge struct {
-		to    string // field ≥ to + k   (to == "" means constant)
-		k     int64
-		where token.Pos
+	inflight := []string{"MaxRequestsInflight", "GlobalMaxRequestsInflight"}
+	bucket := []string{"TokenBucket", "GlobalTokenBucket"}
+	type bound struct {
+		construct string
+		members   []string
+		violate   []nums // each: the values that differ from `valid`
+		why       string
 	}
-	lower := map[string][]edge{}
-	for _, fn := range funcs {
-		if fn == nil {
+	clamp := "the gateway clamps server quotas to the global limit and falls back to the local one: a global limit below the local limit is contradictory"
+	bounds := []bound{
+		{"GlobalMaxRequestsInflight.Max ≥ MaxRequestsInflight.Max on accepting paths", inflight, []nums{{"GlobalMaxRequestsInflight.Max": 4}, {"MaxRequestsInflight.Max": 1000}}, clamp},
+		{"GlobalTokenBucket.QPS ≥ TokenBucket.QPS on accepting paths", bucket, []nums{{"GlobalTokenBucket.QPS": 4}, {"TokenBucket.QPS": 9, "TokenBucket.Burst": 10, "GlobalTokenBucket.QPS": 8}}, clamp},
+		{"GlobalTokenBucket.Burst ≥ TokenBucket.Burst on accepting paths", bucket, []nums{{"GlobalTokenBucket.Burst": 9, "GlobalTokenBucket.QPS": 6}, {"TokenBucket.Burst": 1000}}, clamp},
+		{"TokenBucket.Burst ≥ TokenBucket.QPS on accepting paths", bucket[:1], []nums{{"TokenBucket.Burst": 4}, {"TokenBucket.QPS": 1000}}, clamp},
+		{"MaxRequestsInflight.Max ≥ 0 on accepting paths", inflight[:1], []nums{{"MaxRequestsInflight.Max": -1}, {"MaxRequestsInflight.Max": -1000}}, "converted to uint32 as the in-flight limit"},
+		{"TokenBucket.QPS ≥ 1 on accepting paths", bucket[:1], []nums{{"TokenBucket.QPS": 0}, {"TokenBucket.QPS": -5}}, "a token bucket rate: zero or negative becomes uint32 garbage / a limiter that admits nothing or everything"},
+		{"TokenBucket.Burst ≥ 1 on accepting paths", bucket[:1], []nums{{"TokenBucket.Burst": 0}, {"TokenBucket.Burst": -5, "TokenBucket.QPS": -5}}, "converted to uint32 / int as the bucket size"},
+		{"GlobalMaxRequestsInflight.Max ≥ 0 on accepting paths", inflight, []nums{{"GlobalMaxRequestsInflight.Max": -1}, {"GlobalMaxRequestsInflight.Max": -1000, "MaxRequestsInflight.Max": 0}}, "the global in-flight limit"},
+		{"GlobalTokenBucket.QPS ≥ 1 on accepting paths", bucket, []nums{{"GlobalTokenBucket.QPS": 0}, {"GlobalTokenBucket.QPS": -5}}, "the global rate"},
+		{"GlobalTokenBucket.Burst ≥ 1 on accepting paths", bucket, []nums{{"GlobalTokenBucket.Burst": 0}, {"GlobalTokenBucket.Burst": -5}}, "the global bucket size"},
+	}
+	sane := map[string]string{}
+	for _, b := range bounds {
+		key := strings.Join(b.members, ",")
+		if _, done := sane[key]; !done {
+			acc, und := run(b.members, valid)
+			switch {
+			case und != "":
+				sane[key] = "undecided: " + und
+			case !acc:
+				sane[key] = "the validator accepts no object of shape {" + key + "} with consistent limits: the forcing would be vacuous"
+			default:
+				sane[key] = ""
+			}
+		}
+		ok, detail := sane[key] == "", sane[key]
+		for _, v := range b.violate {
+			if !ok {
+				break
+			}
+			acc, und := run(b.members, with(valid, v))
+			if und != "" {
+				ok, detail = false, "undecided: "+und
+			} else if acc {
+				ok, detail = false, fmt.Sprintf("%s; an object of shape {%s} with %v (other limits consistent) is accepted — e.g. tokenBucket {qps:-5, burst:-5} passes an `== 0` test", b.why, key, map[string]int64(v))
+			}
+		}
+		if ok {
+			detail = b.why + "; every path of the validator rejects the nearest and a far violating value"
+		}
+		if strings.HasPrefix(detail, "undecided") {
+			c.Undecided("R5", vf, b.construct, vf.Pos(), detail)
+		} else {
+			c.Check("R5", vf, b.construct, vf.Pos(), ok, detail)
+		}
+	}
+}
+
+// c16ForcedReject: with the given pins, every path of fn (the helpers it is split into — its
+// Region — interpreted; the exported validators it calls for nested sections are separate
+// subjects) on which an event satisfying `at` occurs reaches a reject block afterwards, and at
+// least one path has such an event.
+func c16ForcedReject(c *eng.Ctx, fn *ssa.Function, pin func(cc *ssa.Call, idx int, fr *eng.TraceFrame) (eng.AV, bool), pinLoad func(ld *ssa.UnOp) (eng.AV, bool), at func(e eng.TraceEvent) bool) bool {
+	in := &eng.Interp{W: c.W, Depth: eng.LiftDepth, MaxPaths: 1 << 14}
+	if pinLoad != nil {
+		in.PinLoad = func(ld *ssa.UnOp, _ string) (eng.AV, bool) { return pinLoad(ld) }
+	}
+	inRegion := map[*ssa.Function]bool{}
+	for _, f := range c.W.Region(fn) {
+		inRegion[f] = true
+	}
+	tr := &eng.Tracer{In: in, Follow: func(_ *ssa.Call, callee *ssa.Function, _ *eng.TraceFrame) bool { return inRegion[callee] }, KnownResults: true}
+	if pin != nil {
+		tr.Pin = func(cc *ssa.Call, idx int, fr *eng.TraceFrame, _ *eng.State) (eng.AV, bool) { return pin(cc, idx, fr) }
+	}
+	paths, err := tr.Run(fn, nil)
+	c.Note("C16 forcing on %s: %d paths (err=%v)", eng.FuncName(fn), len(paths), err)
+	if err != nil {
+		return false
+	}
+	hit := 0
+	for _, tp := range paths {
+		pos := -1
+		for i, e := range tp.Events {
+			if at(e) {
+				pos = i
+				break
+			}
+		}
+		if pos < 0 {
 			continue
 		}
-		for _, ci := range eng.Calls(fn) {
-			if !c16IsReject(ci) {
-				continue
-			}
-			for _, g := range eng.GuardsOf(ci) {
-				r := g.Rel()
-				// the other numeric guards of this reject must be else-branches of rejects (an else-if chain)
-				chainOK := true
-				for _, g2 := range eng.GuardsOf(ci) {
-					if g2 == g {
-						continue
-					}
-					r2 := g2.Rel()
-					if eng.IsNilConst(r2.X) || eng.IsNilConst(r2.Y) {
-						continue
-					}
-					// numeric guard: its opposite successor must contain a reject
-					opp := g2.If.Block().Succs[0]
-					if g2.Branch {
-						opp = g2.If.Block().Succs[1]
-					}
-					hasRej := false
-					for _, ins := range opp.Instrs {
-						if cc, ok := ins.(ssa.CallInstruction); ok && c16IsReject(cc) {
-							hasRej = true
-						}
-					}
-					if !hasRej {
-						chainOK = false
-					}
-				}
-				if !chainOK {
-					continue
-				}
-				x, y := name(r.X, fn), name(r.Y, fn)
-				kx, xc := eng.IntConst(r.X)
-				ky, yc := eng.IntConst(r.Y)
-				_ = kx
-				_ = xc
-				// reject when  X op Y ; accept ⇒ ¬(X op Y)
-				switch {
-				case x != "" && yc:
-					switch r.Op {
-					case token.LSS: // reject x < k ⇒ x ≥ k
-						lower[x] = append(lower[x], edge{"", ky, ci.Pos()})
-					case token.LEQ: // reject x <= k ⇒ x ≥ k+1
-						lower[x] = append(lower[x], edge{"", ky + 1, ci.Pos()})
-					}
-				case x != "" && y != "":
-					switch r.Op {
-					case token.LSS: // reject x < y ⇒ x ≥ y
-						lower[x] = append(lower[x], edge{y, 0, ci.Pos()})
-					case token.LEQ:
-						lower[x] = append(lower[x], edge{y, 1, ci.Pos()})
-					case token.GTR: // reject x > y ⇒ y ≥ x
-						lower[y] = append(lower[y], edge{x, 0, ci.Pos()})
-					}
-				}
+		hit++
+		rejected := false
+		for _, e := range tp.Events[pos+1:] {
+			if ci := e.Call(); ci != nil && c16IsReject(ci) {
+				rejected = true
 			}
 		}
-	}
-	var lb func(f string, seen map[string]bool) (int64, bool)
-	lb = func(f string, seen map[string]bool) (int64, bool) {
-		if seen[f] {
-			return 0, false
+		if !rejected {
+			return false
 		}
-		seen[f] = true
-		best, ok := int64(0), false
-		for _, e := range lower[f] {
-			v, k := e.k, true
-			if e.to != "" {
-				var b int64
-				b, k = lb(e.to, seen)
-				v = b + e.k
-			}
-			if k && (!ok || v > best) {
-				best, ok = v, true
-			}
-		}
-		delete(seen, f)
-		return best, ok
 	}
-	want := []struct {
-		f   string
-		min int64
-		why string
-	}{
-		{"MaxRequestsInflight.Max", 0, "converted to uint32 as the in-flight limit"},
-		{"TokenBucket.QPS", 1, "a token bucket rate: zero or negative becomes uint32 garbage / a limiter that admits nothing or everything"},
-		{"TokenBucket.Burst", 1, "converted to uint32 / int as the bucket size"},
-		{"GlobalMaxRequestsInflight.Max", 0, "the global in-flight limit"},
-		{"GlobalTokenBucket.QPS", 1, "the global rate"},
-		{"GlobalTokenBucket.Burst", 1, "the global bucket size"},
-	}
-	vf := funcs[0]
-	for _, rel := range [][2]string{{"GlobalMaxRequestsInflight.Max", "MaxRequestsInflight.Max"}, {"GlobalTokenBucket.QPS", "TokenBucket.QPS"}, {"GlobalTokenBucket.Burst", "TokenBucket.Burst"}, {"TokenBucket.Burst", "TokenBucket.QPS"}} {
-		ok := false
-		for _, e := range lower[rel[0]] {
-			if e.to == rel[1] && e.k >= 0 {
-				ok = true
-			}
-		}
-		c.Check("R5", vf, fmt.Sprintf("%s ≥ %s on accepting paths", rel[0], rel[1]), vf.Pos(), ok, "the gateway clamps server quotas to the global limit and falls back to the local one: a global limit below the local limit is contradictory")
-	}
-	for _, w := range want {
-		b, ok := lb(w.f, map[string]bool{})
-		c.Check("R5", vf, fmt.Sprintf("%s ≥ %d on accepting paths", w.f, w.min), vf.Pos(), ok && b >= w.min,
-			fmt.Sprintf("%s; derived lower bound: %v (known=%v) — e.g. tokenBucket {qps:-5, burst:-5} passes an `== 0` test", w.why, b, ok))
-	}
+	return hit > 0
+}
+
+// c16PinnedCall: the event is the execution of call `cc` with a pinned result.
+func c16PinnedCall(cc *ssa.Call) func(e eng.TraceEvent) bool {
+	return func(e eng.TraceEvent) bool { return e.Kind == eng.EvCall && e.Pinned && e.Ins == ssa.Instruction(cc) }
 }
 
 // ---- R6 -------------------------------------------------------------------------------
 
 func c16Referential(c *eng.Ctx) {
 	has := "(k8s.io/apimachinery/pkg/util/sets.String).Has"
-	if dp := c.MustFunc(pkgValidation, "ValidateDispatchPolicy"); dp != nil {
-		subset, schema := false, false
-		for _, ci := range eng.Calls(dp) {
-			if !c16IsReject(ci) {
-				continue
-			}
-			for _, g := range eng.GuardsOf(ci) {
-				r := g.Rel()
-				cc, _ := eng.CallResultOf(r.X)
-				if cc == nil || !eng.IsCall(cc, has) || !(eng.IsBoolConst(r.Y, false) && r.Op == token.EQL || eng.IsBoolConst(r.Y, true) && r.Op == token.NEQ) {
-					continue
+	if dp := c.MustFunc(pkgValidation, "ValidateDispatchPolicy"); dp != nil && len(dp.Params) >= 2 {
+		// Decided by forcing: the membership test of the set handed in as parameter k is pinned
+		// to "not a member" and every path of the validator that makes the test (helpers of the
+		// package interpreted, the set followed through their parameters) must reach a reject
+		// block afterwards. Where the test sits and how it is spelled does not matter.
+		dpRegion := map[*ssa.Function]bool{}
+		for _, f := range c.W.Region(dp) {
+			dpRegion[f] = true
+		}
+		forced := func(param int, argOK func(v ssa.Value, fr *eng.TraceFrame) bool) bool {
+			isTest := func(cc *ssa.Call, fr *eng.TraceFrame) bool {
+				if !eng.IsCall(cc, has) || len(eng.Args(cc)) != 1 {
+					return false
 				}
-				recvParam := -1
-				for i, p := range dp.Params {
-					if eng.Receiver(cc) == ssa.Value(p) {
-						recvParam = i
+				rv, _ := fr.Resolve(eng.Receiver(cc))
+				return rv == ssa.Value(dp.Params[param]) && argOK(eng.Args(cc)[0], fr)
+			}
+			tr := &eng.Tracer{
+				In: &eng.Interp{W: c.W, Depth: eng.LiftDepth, MaxPaths: 1 << 14},
+				Pin: func(cc *ssa.Call, idx int, fr *eng.TraceFrame, _ *eng.State) (eng.AV, bool) {
+					if idx == -1 && isTest(cc, fr) {
+						return eng.AVBool(false), true
+					}
+					return eng.AV{}, false
+				},
+				Follow: func(_ *ssa.Call, callee *ssa.Function, _ *eng.TraceFrame) bool { return dpRegion[callee] },
+			}
+			paths, err := tr.Run(dp, nil)
+			if err != nil {
+				return false
+			}
+			tested := 0
+			for _, tp := range paths {
+				at := -1
+				for i, e := range tp.Events {
+					if cc, ok := e.Ins.(*ssa.Call); ok && e.Kind == eng.EvCall && e.Pinned && isTest(cc, e.Frame) {
+						at = i
+						break
 					}
 				}
-				arg := eng.Args(cc)[0]
-				if recvParam == 0 && c.Slicer().DerivesFrom(arg, func(v ssa.Value) bool { return eng.FieldLoadOf(v, pkgV1alpha1+".DispatchPolicy", "UpstreamSubset") }) {
-					subset = true
+				if at < 0 {
+					continue
 				}
-				if recvParam == 1 && eng.FieldLoadOf(arg, pkgV1alpha1+".DispatchPolicy", "FlowControlSchemaName") {
-					schema = true
+				tested++
+				rejected := false
+				for _, e := range tp.Events[at+1:] {
+					if ci := e.Call(); ci != nil && c16IsReject(ci) {
+						rejected = true
+					}
+				}
+				if !rejected {
+					return false
 				}
 			}
+			return tested > 0
 		}
+		sl := c.Slicer()
+		derivesIn := func(v ssa.Value, fr *eng.TraceFrame, pred func(ssa.Value) bool) bool {
+			for i := 0; i < 6 && v != nil; i++ {
+				if sl.DerivesFrom(v, pred) {
+					return true
+				}
+				// continue in the caller when the value is a helper's parameter
+				next := false
+				for _, l := range sl.Leaves(v, nil) {
+					if prm, ok := l.(*ssa.Parameter); ok {
+						if a, in, ok := fr.Bind(prm); ok {
+							v, fr, next = a, in, true
+							break
+						}
+					}
+				}
+				if !next {
+					return false
+				}
+			}
+			return false
+		}
+		subset := forced(0, func(v ssa.Value, fr *eng.TraceFrame) bool {
+			return derivesIn(v, fr, func(x ssa.Value) bool { return eng.FieldLoadOf(x, pkgV1alpha1+".DispatchPolicy", "UpstreamSubset") })
+		})
+		schema := forced(1, func(v ssa.Value, fr *eng.TraceFrame) bool {
+			return derivesIn(v, fr, func(x ssa.Value) bool {
+				return eng.FieldLoadOf(x, pkgV1alpha1+".DispatchPolicy", "FlowControlSchemaName")
+			})
+		})
 		c.Check("R6", dp, "unknown upstream-subset endpoint rejected", dp.Pos(), subset, "a policy naming an endpoint that is not among the servers gets no traffic target (503 for every request)")
 		c.Check("R6", dp, "unknown flow-control schema name rejected", dp.Pos(), schema, "a policy naming an unknown schema silently runs unlimited")
 	}
-	// the sets passed to ValidateDispatchPolicy are the ones built from servers / schemas
+	// the sets passed to ValidateDispatchPolicy are the ones built from servers / schemas: every
+	// call of it in the region of ValidateUpstreamClusterSpec (the loop over the policies may sit
+	// in a helper) gets, resolved through the helper's parameters, the first results of
+	// ValidateServers and ValidateFlowControl
 	if sp := c.MustFunc(pkgValidation, "ValidateUpstreamClusterSpec"); sp != nil {
-		ok := false
-		for _, ci := range eng.CallsTo(sp, pkgValidation+".ValidateDispatchPolicy") {
-			a := eng.Args(ci)
-			c0, i0 := eng.CallResultOf(a[0])
-			c1, i1 := eng.CallResultOf(a[1])
-			ok = c0 != nil && eng.IsCall(c0, pkgValidation+".ValidateServers") && i0 == 0 && c1 != nil && eng.IsCall(c1, pkgValidation+".ValidateFlowControl") && i1 == 0
+		region := c.W.Region(sp)
+		inRegion := map[*ssa.Function]bool{}
+		for _, f := range region {
+			inRegion[f] = true
 		}
-		c.Check("R6", sp, "policies are checked against the object's own servers and schemas", sp.Pos(), ok, "")
+		n, ok := 0, true
+		for _, fn := range region {
+			for _, ci := range eng.CallsTo(fn, pkgValidation+".ValidateDispatchPolicy") {
+				a := eng.Args(ci)
+				chains := []eng.UpChain{nil}
+				if fn != sp {
+					chains = nil
+					for _, ch := range c.W.UpChains(fn, func(f *ssa.Function) bool { return f == sp }) {
+						if ch.Top(fn) == sp {
+							chains = append(chains, ch)
+						}
+					}
+				}
+				for _, ch := range chains {
+					n++
+					resolve := func(v ssa.Value) ssa.Value {
+						return c04ResolveIn(v, ch, func(f *ssa.Function) bool { return inRegion[f] }).v
+					}
+					c0, i0 := eng.CallResultOf(resolve(a[0]))
+					c1, i1 := eng.CallResultOf(resolve(a[1]))
+					ok = ok && c0 != nil && eng.IsCall(c0, pkgValidation+".ValidateServers") && i0 == 0 && c1 != nil && eng.IsCall(c1, pkgValidation+".ValidateFlowControl") && i1 == 0
+				}
+			}
+		}
+		c.Check("R6", sp, "policies are checked against the object's own servers and schemas", sp.Pos(), ok && n > 0, "")
+	}
+	forcedReject := func(fn *ssa.Function, pin func(cc *ssa.Call, idx int, fr *eng.TraceFrame) (eng.AV, bool), pinLoad func(ld *ssa.UnOp) (eng.AV, bool), at func(e eng.TraceEvent) bool) bool {
+		return c16ForcedReject(c, fn, pin, pinLoad, at)
 	}
 	if vs := c.MustFunc(pkgValidation, "ValidateServers"); vs != nil {
-		mixed := false
-		for _, ci := range eng.Calls(vs) {
-			if !c16IsReject(ci) {
-				continue
-			}
-			if eng.GuardedBy(ci, func(r eng.Rel) bool {
-				cc, _ := eng.CallResultOf(r.X)
-				k, isK := eng.IntConst(r.Y)
-				return cc != nil && eng.IsCall(cc, "(k8s.io/apimachinery/pkg/util/sets.String).Len") && isK && k == 1 && r.Op == token.GTR
-			}) {
-				mixed = true
-			}
-		}
-		c.Check("R6", vs, "mixed endpoint schemes rejected", vs.Pos(), mixed, "the client configuration takes the scheme of the first server for all of them")
-		// every endpoint is inserted into the upstream set
-		ins := false
-		for _, ci := range eng.CallsTo(vs, "(k8s.io/apimachinery/pkg/util/sets.String).Insert") {
-			for _, a := range eng.Args(ci) {
-				if c.Slicer().DerivesFrom(a, func(v ssa.Value) bool {
-					return eng.FieldLoadOf(v, pkgV1alpha1+".UpstreamClusterServer", "Endpoint")
-				}) && eng.InLoop(ci.Block()) && len(eng.GuardsOf(ci)) <= 1 {
-					ins = true
+		// mixed schemes: the size of a string set is forced to 2; every path that asks for it rejects
+		isLen := func(cc *ssa.Call) bool { return eng.IsCall(cc, "(k8s.io/apimachinery/pkg/util/sets.String).Len") }
+		mixed := forcedReject(vs,
+			func(cc *ssa.Call, idx int, _ *eng.TraceFrame) (eng.AV, bool) {
+				if idx == -1 && isLen(cc) {
+					return eng.AVInt(2), true
 				}
+				return eng.AV{}, false
+			}, nil,
+			func(e eng.TraceEvent) bool {
+				cc, ok := e.Ins.(*ssa.Call)
+				return ok && e.Kind == eng.EvCall && e.Pinned && isLen(cc)
+			})
+		c.Check("R6", vs, "mixed endpoint schemes rejected", vs.Pos(), mixed, "the client configuration takes the scheme of the first server for all of them")
+		// every endpoint is inserted into the upstream set: in the loop that inserts endpoints,
+		// every iteration passes the insertion (directly or in a helper that always performs it)
+		su := c.Slicer().WithUp()
+		isIns := func(i ssa.Instruction) bool {
+			ci, ok := i.(*ssa.Call)
+			if !ok || !eng.IsCall(ci, "(k8s.io/apimachinery/pkg/util/sets.String).Insert") {
+				return false
+			}
+			for _, a := range eng.Args(ci) {
+				if su.DerivesFrom(a, func(v ssa.Value) bool {
+					return eng.FieldLoadOf(v, pkgV1alpha1+".UpstreamClusterServer", "Endpoint")
+				}) {
+					return true
+				}
+			}
+			return false
+		}
+		must, may := eng.LiftMust(isIns), eng.LiftMay(isIns)
+		ins := false
+		for _, l := range eng.NaturalLoops(vs) {
+			inserts := false
+			for b := range l.Blocks {
+				for _, i := range b.Instrs {
+					inserts = inserts || may(i)
+				}
+			}
+			if inserts && l.EveryIterationPasses(must) {
+				ins = true
 			}
 		}
 		c.Check("R6", vs, "upstream set = endpoints of all servers", vs.Pos(), ins, "")
 	}
 	if vfc := c.MustFunc(pkgValidation, "ValidateFlowControl"); vfc != nil {
-		empty, dup := false, false
-		for _, ci := range eng.Calls(vfc) {
-			if !c16IsReject(ci) {
-				continue
-			}
-			if eng.GuardedBy(ci, func(r eng.Rel) bool {
-				lc, isC := r.X.(*ssa.Call)
-				k, isK := eng.IntConst(r.Y)
-				return isC && isBuiltin(lc, "len") && eng.FieldLoadOf(lc.Call.Args[0], tSchema, "Name") && isK && k == 0 && r.Op == token.EQL
-			}) {
-				empty = true
-			}
-			if eng.GuardedByBool(ci, func(v ssa.Value) bool {
-				cc, _ := eng.CallResultOf(v)
-				return cc != nil && eng.IsCall(cc, has) && eng.FieldLoadOf(eng.Args(cc)[0], tSchema, "Name")
-			}, true) {
-				dup = true
+		isName := func(v ssa.Value) bool { return eng.FieldLoadOf(v, tSchema, "Name") }
+		nameRead := func(e eng.TraceEvent) bool {
+			v, ok := e.Ins.(ssa.Value)
+			return e.Kind == eng.EvPinned && ok && isName(v)
+		}
+		pinName := func(s string) func(ld *ssa.UnOp) (eng.AV, bool) {
+			return func(ld *ssa.UnOp) (eng.AV, bool) {
+				if isName(ld) {
+					return eng.AV{K: eng.ConstV, C: constant.MakeString(s)}, true
+				}
+				return eng.AV{}, false
 			}
 		}
+		// an empty name: every path that looks at the name rejects
+		empty := forcedReject(vfc, nil, pinName(""), nameRead)
+		// a name the set already has: the membership test of a schema name is forced to true
+		isHasName := func(cc *ssa.Call, fr *eng.TraceFrame) bool {
+			if !eng.IsCall(cc, has) || len(eng.Args(cc)) != 1 {
+				return false
+			}
+			rv, _ := fr.Resolve(eng.Args(cc)[0])
+			return isName(rv)
+		}
+		dup := forcedReject(vfc,
+			func(cc *ssa.Call, idx int, fr *eng.TraceFrame) (eng.AV, bool) {
+				if idx == -1 && isHasName(cc, fr) {
+					return eng.AVBool(true), true
+				}
+				return eng.AV{}, false
+			}, pinName("a-schema"),
+			func(e eng.TraceEvent) bool {
+				cc, ok := e.Ins.(*ssa.Call)
+				return ok && e.Kind == eng.EvCall && e.Pinned && isHasName(cc, e.Frame)
+			})
 		c.Check("R6", vfc, "empty schema name rejected", vfc.Pos(), empty, "")
 		c.Check("R6", vfc, "duplicate schema name rejected", vfc.Pos(), dup, "two schemas of one name share one limiter")
 	}
@@ -1037,12 +1332,43 @@ func c16AdmitsValidated(c *eng.Ctx) {
 		if cc, _ := eng.CallResultOf(res); cc != nil && !eng.MethodNameIs(cc, "ToAggregate") {
 			return
 		}
-		// the ignore edge
-		if eng.GuardedByBool(r, func(x ssa.Value) bool {
-			cc, _ := eng.CallResultOf(x)
-			return cc != nil && eng.IsCall(cc, pkgAdmission+".shouldIgnore")
-		}, true) {
-			return
+		// the ignore edge: guarded by shouldIgnore(a). Should that helper have been renamed,
+		// merged or inlined, the ignoring returns are recognised by their role instead: they are
+		// not reachable from any use of the submitted *UpstreamCluster (a field access, handing it
+		// to a function) — a return that has not looked at the object cannot be a shortcut for
+		// particular objects.
+		if ignoreFn := c.W.Func(pkgAdmission, "shouldIgnore"); ignoreFn != nil && ignoreFn.Blocks != nil {
+			if eng.GuardedByBool(r, func(x ssa.Value) bool {
+				cc, _ := eng.CallResultOf(x)
+				return cc != nil && eng.IsCall(cc, pkgAdmission+".shouldIgnore")
+			}, true) {
+				return
+			}
+		} else {
+			isObj := func(x ssa.Value) bool {
+				_, isPtr := x.Type().(*types.Pointer)
+				return isPtr && eng.TypeName(x.Type()) == pkgV1alpha1+".UpstreamCluster"
+			}
+			after := false
+			eng.Instrs(v, func(i ssa.Instruction) {
+				used := false
+				switch x := i.(type) {
+				case *ssa.FieldAddr:
+					used = isObj(x.X)
+				case ssa.CallInstruction:
+					for _, a := range x.Common().Args {
+						used = used || isObj(a)
+					}
+				case *ssa.MakeInterface:
+					used = isObj(x.X)
+				}
+				if used && eng.ReachAfter(i, eng.PathQuery{Target: func(x ssa.Instruction) bool { return x == ssa.Instruction(r) }}) != nil {
+					after = true
+				}
+			})
+			if !after {
+				return
+			}
 		}
 		n++
 		okV := eng.AlwaysBefore(v, r, isValidate)
@@ -1099,19 +1425,22 @@ func c16Preconditions(c *eng.Ctx) {
 			}
 		})
 	}
-	// the consumer passes both fields on
+	// the consumer passes both fields on: somewhere in the clusters package the object's CAData
+	// and Insecure are copied into a client-go TLS configuration (found by the stores, not by
+	// the name of the function that holds them)
 	passes := false
-	if b := c.MustFunc(pkgClusters, "buildClusterRESTConfig"); b != nil {
-		ca, ins := false, false
-		for _, st := range eng.StoresToField([]*ssa.Function{b}, "k8s.io/client-go/rest.TLSClientConfig", "CAData") {
-			if eng.FieldLoadOf(st.Val, pkgV1alpha1+".ClientConfig", "CAData") {
-				ca = true
-			}
+	{
+		sl := c.Slicer().WithUp()
+		from := func(v ssa.Value, field string) bool {
+			return sl.DerivesFrom(v, func(x ssa.Value) bool { return eng.FieldLoadOf(x, pkgV1alpha1+".ClientConfig", field) })
 		}
-		for _, st := range eng.StoresToField([]*ssa.Function{b}, "k8s.io/client-go/rest.TLSClientConfig", "Insecure") {
-			if eng.FieldLoadOf(st.Val, pkgV1alpha1+".ClientConfig", "Insecure") {
-				ins = true
-			}
+		ca, ins := false, false
+		fs := c.W.FuncsOf(pkgClusters)
+		for _, st := range eng.StoresToField(fs, "k8s.io/client-go/rest.TLSClientConfig", "CAData") {
+			ca = ca || from(st.Val, "CAData")
+		}
+		for _, st := range eng.StoresToField(fs, "k8s.io/client-go/rest.TLSClientConfig", "Insecure") {
+			ins = ins || from(st.Val, "Insecure")
 		}
 		passes = ca && ins
 	}
@@ -1119,36 +1448,90 @@ func c16Preconditions(c *eng.Ctx) {
 		c.Note("R8/P1 not applicable on this tree: dependency guard found=%v, consumer passes caData+insecure=%v", p1, passes)
 		c.Pass("R8", nil, "caData with insecure is rejected", 0, "precondition not present in the dependency / not exercised by the consumer")
 	} else {
-		ok := false
+		// Decided by forcing on the validator of the client configuration (the function(s) of the
+		// validation package the reads of ClientConfig.Insecure belong to): for an https endpoint
+		// with CAData present, Insecure=false must leave an accepting path (the forcing is not
+		// vacuous) and Insecure=true must not — every path reaches a reject block, wherever the
+		// two tests sit (one function, caller and helper, a switch, named flags).
+		tCC := pkgV1alpha1 + ".ClientConfig"
+		holders := map[*ssa.Function]bool{}
+		var roots []*ssa.Function
 		for _, fn := range c.W.FuncsOf(pkgValidation) {
-			for _, ci := range eng.Calls(fn) {
-				if !c16IsReject(ci) {
-					continue
+			reads := false
+			eng.Instrs(fn, func(i ssa.Instruction) {
+				if v, ok := i.(ssa.Value); ok && eng.FieldLoadOf(v, tCC, "Insecure") {
+					reads = true
 				}
-				ins, ca := false, false
-				for _, f := range eng.FactsAt(ci, 1) {
-					_ = f
-				}
-				for _, g := range eng.GuardsOf(ci) {
-					rel := g.Rel()
-					if eng.FieldLoadOf(rel.X, pkgV1alpha1+".ClientConfig", "Insecure") && ((eng.IsBoolConst(rel.Y, true) && rel.Op == token.EQL) || (eng.IsBoolConst(rel.Y, false) && rel.Op == token.NEQ)) {
-						ins = true
-					}
-					if lc, isC := rel.X.(*ssa.Call); isC && isBuiltin(lc, "len") && eng.FieldLoadOf(lc.Call.Args[0], pkgV1alpha1+".ClientConfig", "CAData") {
-						if z, isZ := eng.IntConst(rel.Y); isZ && z == 0 && (rel.Op == token.GTR || rel.Op == token.NEQ) {
-							ca = true
-						}
-					}
-				}
-				if ins && ca {
-					ok = true
+			})
+			if !reads {
+				continue
+			}
+			for _, r := range c04Roots(c, fn) {
+				if !holders[r] {
+					holders[r] = true
+					roots = append(roots, r)
 				}
 			}
 		}
-		c.Check("R8", c.W.Func(pkgValidation, "ValidateClientConfig"), "caData with insecure is rejected", 0, ok,
-			"clientConfig {insecure: true, caData: <valid>} with an https endpoint passes validation, but client-go's transport.TLSConfigFor refuses a CA together with the insecure flag: CreateClusterInfo / the endpoint transports fail for an admitted object")
+		accepts := func(root *ssa.Function, insecure bool) (bool, error) {
+			inRegion := map[*ssa.Function]bool{}
+			for _, f := range c.W.Region(root) {
+				inRegion[f] = true
+			}
+			in := &eng.Interp{W: c.W, Depth: eng.LiftDepth, MaxPaths: 1 << 15, FollowCall: func(callee *ssa.Function) bool { return inRegion[callee] }}
+			in.PinLoad = func(ld *ssa.UnOp, _ string) (eng.AV, bool) {
+				switch {
+				case eng.FieldLoadOf(ld, tCC, "Insecure"):
+					return eng.AVBool(insecure), true
+				case eng.FieldLoadOf(ld, tCC, "CAData"):
+					return eng.AV{K: eng.LenV, C: constant.MakeInt64(3)}, true
+				}
+				return eng.AV{}, false
+			}
+			var args []eng.AV
+			for _, prm := range root.Params {
+				if b, ok := prm.Type().Underlying().(*types.Basic); ok && b.Info()&types.IsString != 0 {
+					args = append(args, eng.AV{K: eng.ConstV, C: constant.MakeString("https")})
+				} else {
+					args = append(args, eng.AV{})
+				}
+			}
+			paths, err := in.Run(root, args)
+			if err != nil {
+				return false, err
+			}
+			for _, p := range paths {
+				if p.Panicked || p.LoopCut {
+					continue
+				}
+				rej := false
+				for _, ci := range p.Calls {
+					rej = rej || c16IsReject(ci)
+				}
+				if !rej {
+					return true, nil
+				}
+			}
+			return false, nil
+		}
+		ok, detail := len(roots) > 0, "clientConfig {insecure: true, caData: <valid>} with an https endpoint passes validation, but client-go's transport.TLSConfigFor refuses a CA together with the insecure flag: CreateClusterInfo / the endpoint transports fail for an admitted object"
+		for _, r := range roots {
+			base, err1 := accepts(r, false)
+			forced, err2 := accepts(r, true)
+			switch {
+			case err1 != nil || err2 != nil:
+				ok, detail = false, fmt.Sprintf("undecided: %v %v", err1, err2)
+			case !base:
+				ok, detail = false, "the validator accepts no https client configuration with caData at all: the forcing would be vacuous"
+			case forced:
+				ok = false
+			}
+		}
+		c.Check("R8", c.W.Func(pkgValidation, "ValidateClientConfig"), "caData with insecure is rejected", 0, ok, detail)
 	}
-	// --- P2: empty host
+	// --- P2: empty host. Decided by forcing: url.Parse of the validator succeeds (nil error), the
+	// Host of a URL reads as "", and every path of the validator the parse belongs to that looks
+	// at the host must reach a reject block — wherever the test and the reject sit.
 	okHost := false
 	var vs *ssa.Function
 	for _, fn := range c.W.FuncsOf(pkgValidation) {
@@ -1157,27 +1540,37 @@ func c16Preconditions(c *eng.Ctx) {
 			if !isCall {
 				continue
 			}
-			vs = fn
-			for _, ci := range eng.Calls(fn) {
-				if !c16IsReject(ci) {
-					continue
-				}
-				for _, g := range eng.GuardsOf(ci) {
-					rel := g.Rel()
-					x := rel.X
-					isEmptyCmp := false
-					if lc, isC := x.(*ssa.Call); isC && isBuiltin(lc, "len") {
-						x = lc.Call.Args[0]
-						if z, isZ := eng.IntConst(rel.Y); isZ && z == 0 && (rel.Op == token.EQL || rel.Op == token.LEQ) {
-							isEmptyCmp = true
+			isHost := func(v ssa.Value) bool { return eng.FieldLoadOf(v, "net/url.URL", "Host") }
+			all := true
+			roots := c04Roots(c, fn)
+			for _, root := range roots {
+				vs = root
+				all = all && c16ForcedReject(c, root,
+					func(cc *ssa.Call, idx int, _ *eng.TraceFrame) (eng.AV, bool) {
+						if cc != call {
+							return eng.AV{}, false
 						}
-					} else if k, isK := eng.StringConst(rel.Y); isK && k == "" && rel.Op == token.EQL {
-						isEmptyCmp = true
-					}
-					if isEmptyCmp && eng.FieldLoadOf(x, "net/url.URL", "Host") && c.Slicer().DerivesFrom(x, func(v ssa.Value) bool { cc, _ := eng.CallResultOf(v); return cc == call }) {
-						okHost = true
-					}
-				}
+						switch idx {
+						case 0:
+							return eng.AV{K: eng.NonNilV}, true
+						case 1:
+							return eng.AV{K: eng.NilV}, true
+						}
+						return eng.AV{}, true
+					},
+					func(ld *ssa.UnOp) (eng.AV, bool) {
+						if isHost(ld) {
+							return eng.AV{K: eng.ConstV, C: constant.MakeString("")}, true
+						}
+						return eng.AV{}, false
+					},
+					func(e eng.TraceEvent) bool {
+						v, ok := e.Ins.(ssa.Value)
+						return e.Kind == eng.EvPinned && ok && isHost(v)
+					})
+			}
+			if all && len(roots) > 0 {
+				okHost = true
 			}
 		}
 	}
